@@ -1,6 +1,6 @@
 """C04 - every swap conserves tokens and routes each fee to its destination."""
 import re
-from rules.common import (where, flat_atoms, all_origins, exact_origins, ops_of, show, field_val)
+from rules.common import (opmap, where, flat_atoms, all_origins, exact_origins, ops_of, show, field_val)
 from rules import swapcore as sc
 from base import CutPolicy
 from absint import EMPTY, vfield
@@ -26,7 +26,7 @@ def run(W, chk):
     # router: each hop's offer is the paid-in amount or the previous hop's return (exact)
     for e in A.calls_id(r"swap::perform_swap::perform_swap$"):
         off = vfield(e.extra["dargs"][1], "amount")
-        m = {o: ops for (o, ops) in flat_atoms(off)}
+        m = opmap(off)
         chk.expect(set(m) == {"info.funds[*].amount", sc.C + ".return_amount"} and all(not ops for ops in m.values()), "PROV-router-chain", "hop offer",
                    "hop k offers exactly must_pay amount or the previous hop's return", "hop offer <- %s" % {k: sorted(v) for k, v in m.items()}, where(e))
         chk.expect(exact_origins(e.extra["dargs"][3]) == {"msg.ExecuteSwapOperations.operations[*].MantraSwap.pool_identifier"}, "PROV-router-chain", "hop pool",
